@@ -306,6 +306,18 @@ def make_server(seed: int, params: dict[str, Any], off: list[str]) -> Any:
     return RandomUDSServer(seed, rp, beh)
 
 
+def next_last_seed(last_seed: tuple[int, bytes] | None, b: bytes, r: bytes | None) -> tuple[int, bytes] | None:
+    """What the virtual ECU remembers about an outstanding seed after answering request b with r: a requestSeed reply sets
+    it, a positive (possibly suppressed) TesterPresent keeps it, every other answered request clears it."""
+    if r is not None and len(r) >= 2 and r[0] == 0x67 and r[1] % 2 == 1:
+        return (r[1], r[2:])
+    if b[0] == 0x3E and (r == b"\x7e\x00" or (r is None and b == b"\x3e\x80")):
+        return last_seed
+    if r is None and not (b[0] in SUBFN_SIDS and len(b) >= 2 and b[1] >= 0x80):
+        return last_seed  # no response object at all: nothing was updated
+    return None
+
+
 class Driver:
     """Runs a history against a fresh RandomUDSServer through UDSServerTransport.handle_request on a private loop."""
 
@@ -327,10 +339,7 @@ class Driver:
         except BaseException as e:  # noqa: BLE001
             return None, e
         self.prev = b
-        if r is not None and len(r) >= 2 and r[0] == 0x67 and r[1] % 2 == 1:
-            self.last_seed = (r[1], r[2:])
-        elif b[0] != 0x3E:
-            self.last_seed = None
+        self.last_seed = next_last_seed(self.last_seed, b, r)
         return r, None
 
     def close(self) -> None:
